@@ -29,7 +29,7 @@ MANIFEST = {
             "(exhaustive over the finite spaces) and an implementation oracle with an independent XSD literal validator.",
     "note": "finite float digit strings are CPython's repr (opaque); Decimal arithmetic, re, datetime, dateutil, base64/binascii "
             "are modelled from their documented/observed behaviour and exercised by the tie, not verified; only ASCII digits and "
-            "white space are modelled for int()/float()/Decimal()/\\d; requires fixes/C06-*.patch (6 small repairs); the remaining "
+            "white space are modelled for int()/float()/Decimal()/\\d; requires fixes/C06-*.patch (7 small repairs); the remaining "
             "laxness of from_xsd (underscores, non-ASCII digits, out-of-range zones, lenient base64/hex, P/PT, Decimal NaN/Inf) is "
             "recorded as known findings",
     "technique": "Lean 4 proof: per-type round-trip/validity/rejection theorems over list-of-char models + decide over tables "
